@@ -438,7 +438,7 @@ func init() {
 			var jobs []Job
 			n, hist, maxs, s2every, max2 := 10, 1, 130, 14, 3
 			if tier == "thorough" {
-				n, hist, maxs, s2every, max2 = 42, 8, 400, 5, 8
+				n, hist, maxs, s2every, max2 = 16, 4, 250, 6, 6 // (42 x 8 histories ran for more than an hour on this VM)
 			}
 			for i := 0; i < n; i++ {
 				jobs = append(jobs, Job{Variant: "plain", Mode: "db.c06", Timeout: 900, Args: js(map[string]interface{}{"Histories": hist, "MaxSnaps": maxs, "Workers": 1, "Stage2Every": s2every, "Max2": max2, "Writes2": 6})})
@@ -446,7 +446,7 @@ func init() {
 			// validation of the snapshot model against real SIGKILLs of a running process
 			kills, nk := 6, 2
 			if tier == "thorough" {
-				kills, nk = 40, 10
+				kills, nk = 25, 6
 			}
 			for i := 0; i < nk; i++ {
 				jobs = append(jobs, Job{Variant: "plain", Mode: "db.c06kill", Timeout: 900, Args: js(map[string]interface{}{"Histories": kills})})
@@ -462,7 +462,7 @@ func init() {
 			var jobs []Job
 			n, hist, maxs, s2every, max2 := 14, 2, 120, 10, 4
 			if tier == "thorough" {
-				n, hist, maxs, s2every, max2 = 42, 14, 300, 4, 8
+				n, hist, maxs, s2every, max2 = 20, 6, 200, 5, 6
 			}
 			for i := 0; i < n; i++ {
 				jobs = append(jobs, Job{Variant: "plain", Mode: "db.c07", Timeout: 900, Args: js(map[string]interface{}{"Histories": hist, "MaxSnaps": maxs, "Workers": 2, "Stage2Every": s2every, "Max2": max2})})
